@@ -316,6 +316,8 @@ def run_t8_t9(chk, repo):
     from rules.C10 import closed_protection_sets
     closed_protection_sets(chk, T9, repo)
     run_t10(chk, repo)
+    run_t11(chk, repo)
+    run_t12(chk, repo)
 
 
 def run_t10(chk, repo):
@@ -424,3 +426,91 @@ def run_t10(chk, repo):
                                       'set_michaelis_menten_elimination(model) raises AssertionError')
     if n == 0:
         raise AnalysisError('T10: no assert on an ODE system found in modeling/odes.py (anchor moved)')
+
+
+def run_t11(chk, repo):
+    """a symbol written by name into a new flow rate (Expr.symbol('VC')) reaches the flow only where a membership test has
+    shown that the old rate uses it"""
+    from sa import guards as G_, reach
+    T11 = chk.rule('T11', 'elimination / absorption setters: a symbol created from a literal name and used in the rate of '
+                          'cb.add_flow reaches that call only on paths where it was found in the free symbols of the old rate',
+                   floor=2)
+    om = repo.module(ODES)
+    n = 0
+    for name, f in sorted(dict.items(om.functions)):
+        if f.cls is not None or f.parent is not None:
+            continue
+        flows = [c for c in calls_in(f.node) if isinstance(c.func, ast.Attribute) and c.func.attr == 'add_flow' and len(c.args) >= 3]
+        if not flows:
+            continue
+        cfg = CFG(f.node)
+        for c in flows:
+            at = reach.node_containing(cfg, c)
+            if at is None:
+                continue
+            for nm in {x.id for x in ast.walk(c.args[2]) if isinstance(x, ast.Name)}:
+                found, _entry = reach.reaching(cfg, at, nm)
+                for d in found:
+                    a = cfg.nodes[d].ast
+                    if not (isinstance(a, ast.Assign) and isinstance(a.value, ast.Call) and dotted(a.value.func) == 'Expr.symbol'
+                            and a.value.args and isinstance(a.value.args[0], ast.Constant)):
+                        continue
+                    lit = a.value.args[0].value
+                    # defined by this function itself (a parameter it adds)? then it exists
+                    creates = any(isinstance(k, ast.Call) and (dotted(k.func) or '').endswith(('add_individual_parameter',
+                                                                                              '_add_parameter'))
+                                  and any(isinstance(z, ast.Constant) and z.value == lit for z in k.args)
+                                  for k in calls_in(f.node))
+                    if creates:
+                        continue
+                    n += 1
+                    # edges on which `<nm> in X.free_symbols` is known to hold
+                    def member(e, nm=nm):
+                        if isinstance(e, ast.Compare) and len(e.ops) == 1 and isinstance(e.ops[0], (ast.In, ast.NotIn)) \
+                                and unparse(e.left) == nm and 'free_symbols' in unparse(e.comparators[0]):
+                            return isinstance(e.ops[0], ast.In)
+                        return None
+                    drop = set()
+                    for t in cfg.nodes.values():
+                        if t.kind == 'test' and t.ast is not None:
+                            lab = G_.edge_label(t.ast, member)
+                            if lab:
+                                drop |= {(t.id, m_) for m_ in cfg.g.successors(t.id) if lab in cfg.g[t.id][m_]['labels']}
+                    others = reach.defs(cfg, nm) - {d}
+                    unguarded = at in cfg.reachable(d, avoid=others, drop_edges=drop, labels_excluded=('exc', 'fexc'))
+                    chk.instance(T11, f'{name}: `{unparse(a)[:50]}` reaches `{unparse(c)[:50]}` only after a membership test: '
+                                      f'{not unguarded}')
+                    if unguarded:
+                        chk.violation(T11, om.rel, name, f'{unparse(a)} ... {unparse(c)[:60]}',
+                                      f'the rate is written with the symbol {lit} although nothing established that the model '
+                                      f'has it: when the volume is called V1/V2 the new rate refers to an undefined {lit}',
+                                      line=cfg.nodes[d].line,
+                                      witness='PERIPHERALS(1); ELIMINATION(MIX-FO-MM); ELIMINATION(FO) on a model whose volume is '
+                                              'V: the flow becomes CL/VC with VC undefined')
+    if n < 2:
+        raise AnalysisError(f'T11: only {n} literal symbols in flow rates found in modeling/odes.py')
+
+
+def run_t12(chk, repo):
+    """absorption is what flows INTO the central compartment: its detector must read a direction-aware quantity"""
+    T12 = chk.rule('T12', 'has_first_order_absorption decides on the inflows of the central compartment, not on a '
+                          'direction-blind neighbour count', floor=1)
+    om = repo.module(ODES)
+    f = om.functions.get('has_first_order_absorption')
+    if f is None:
+        raise AnalysisError('has_first_order_absorption not found')
+    attrs = {c.func.attr for c in calls_in(f.node) if isinstance(c.func, ast.Attribute)}
+    # helpers of the same module are looked into (one level)
+    for c in calls_in(f.node):
+        g = dict.get(om.functions, dotted(c.func) or '')
+        if g is not None:
+            attrs |= {k.func.attr for k in calls_in(g.node) if isinstance(k.func, ast.Attribute)}
+    directed = attrs & {'get_compartment_inflows', 'find_depot', 'get_flow', 'predecessors', 'in_edges'}
+    blind = attrs & {'get_n_connected', 'neighbors', 'degree'}
+    chk.instance(T12, f'has_first_order_absorption reads {sorted(directed)} (direction aware), {sorted(blind)} (direction blind)')
+    if not directed:
+        chk.violation(T12, om.rel, f.name, f'decides with {sorted(blind) or sorted(attrs)}',
+                      'a compartment that only receives from central (a metabolite compartment) is counted like a depot',
+                      line=f.node.lineno,
+                      witness='METABOLITE(BASIC) on an oral model: the absorption category disappears from get_model_features, '
+                              'a following ABSORPTION(FO) is not a no-op and loses the lag time')
